@@ -497,7 +497,7 @@ class ValueMapping:
         """
         values_str = values_list[i]
         valuemap_str = valuemap_list[i]
-        m = re.match(r'^(.*)\.\.(.*)$', valuemap_str)
+        m = re.match(r'^(.*)\.\.(.*)\Z', valuemap_str)
         if m is None:
             valuemap_int = self._to_int(valuemap_str)
             return (valuemap_int, valuemap_int, values_str)
